@@ -10,7 +10,7 @@ use rayon::prelude::*;
 use serde_json::{json, Value};
 use std::panic::{catch_unwind, AssertUnwindSafe};
 
-pub const ALPHA: [char; 15] = ['$', '{', '}', '\\', 'g', '<', '>', '0', '1', '9', 'x', '_', 'é', ' ', '-'];
+pub const ALPHA: [char; 16] = ['$', '{', '}', '\\', 'g', '<', '>', '0', '1', '9', 'x', '_', 'é', ' ', '-', '²'];
 
 struct Subject {
     pattern: &'static str,
@@ -28,6 +28,9 @@ fn subjects() -> Vec<Subject> {
         Subject { pattern: "(a)(b)?(c)(?=)", text: "-ac-", names: n(&[None, None, None, None]) },
         Subject { pattern: "(?<x>a)(?<x1>b)?(?<_>c)(?<é>d)(?=)", text: "acd", names: n(&[None, Some("x"), Some("x1"), Some("_"), Some("é")]) },
         Subject { pattern: "(?=)(a)(b)(c)(d)(e)(f)(g)(h)(i)(j)(k)(?<g9>l)", text: "abcdefghijkl", names: n(&[None, None, None, None, None, None, None, None, None, None, None, None, Some("g9")]) },
+        // a name ending in a non-ASCII digit (identifier characters are alphanumeric or `_`)
+        Subject { pattern: "(?<x²>a)(?<x>b)?(?P<n٣>c)", text: "ac", names: n(&[None, Some("x²"), Some("x"), Some("n٣")]) },
+        Subject { pattern: "(?=)(?<x²>a)(?<x>b)?(?P<n٣>c)", text: "ac", names: n(&[None, Some("x²"), Some("x"), Some("n٣")]) },
     ]
 }
 
@@ -49,6 +52,22 @@ fn prepare() -> Result<Vec<Prepared>, String> {
         out.push(Prepared { re, spans, sub });
     }
     Ok(out)
+}
+
+/// io::Write that accepts at most `chunk` bytes per call
+struct ChunkWriter {
+    out: Vec<u8>,
+    chunk: usize,
+}
+impl std::io::Write for ChunkWriter {
+    fn write(&mut self, buf: &[u8]) -> std::io::Result<usize> {
+        let n = buf.len().min(self.chunk);
+        self.out.extend_from_slice(&buf[..n]);
+        Ok(n)
+    }
+    fn flush(&mut self) -> std::io::Result<()> {
+        Ok(())
+    }
 }
 
 pub struct Info {
@@ -76,6 +95,22 @@ fn check_template(p: &Prepared, template: &str, python: bool) -> Result<Info, Fa
         exp.write_expansion(&mut buf, template, &caps).map_err(|e| Fail::new("write_expansion", "Ok", e.to_string()))?;
         if buf != format!("w:{}", want).into_bytes() {
             return Err(Fail::new("write_expansion", format!("{:?}", want), format!("{:?}", String::from_utf8_lossy(&buf))));
+        }
+        // a writer that takes only a few bytes per call (a legitimate io::Write): nothing may be lost
+        for chunk in [1usize, 3] {
+            let mut cw = ChunkWriter { out: vec![], chunk };
+            exp.write_expansion(&mut cw, template, &caps).map_err(|e| Fail::new("write_expansion", "Ok with a short-writing writer", e.to_string()))?;
+            if cw.out != want.as_bytes() {
+                return Err(Fail::new("write_expansion", format!("{:?} through a writer accepting {} byte(s) per call", want, chunk), format!("{:?}", String::from_utf8_lossy(&cw.out))));
+            }
+        }
+        // a fixed-size slice that is one byte too small: the error must surface, nothing may be dropped silently
+        if !want.is_empty() {
+            let mut small = vec![0u8; want.len() - 1];
+            let mut slice: &mut [u8] = &mut small;
+            if exp.write_expansion(&mut slice, template, &caps).is_ok() {
+                return Err(Fail::new("write_expansion", "Err(WriteZero) for a destination slice that is one byte too small", "Ok"));
+            }
         }
         let mut v: Vec<u8> = b"v:".to_vec();
         exp.write_expansion_vec(&mut v, template, &caps).map_err(|e| Fail::new("write_expansion_vec", "Ok", e.to_string()))?;
@@ -139,7 +174,7 @@ fn all_templates(maxlen: usize) -> Vec<String> {
 
 const PIECES: &[&str] = &[
     "$", "\\", "{", "}", "g<", ">", "0", "1", "2", "9", "10", "11", "12", "13", "99999999999999999999", "18446744073709551616", "x", "x1", "_", "é", " ", "$$", "\\\\", "${", "\\g<", "g9", "${x}", "$x1", "\\g<x>",
-    "\\1", "$1", "a", "-", "${-1}", "\\g<-1>", "-1", "$-", "${1-}",
+    "\\1", "$1", "a", "-", "${-1}", "\\g<-1>", "-1", "$-", "${1-}", "²", "x²", "${x²}", "$n٣", "\\g<n٣>", "٣", "9223372036854775808", "9223372036854775807", "4611686018427387904", "${9223372036854775808}",
 ];
 
 fn random_template(bytes: &[u8]) -> String {
@@ -176,7 +211,7 @@ fn violation(p: &[Prepared], si: usize, python: bool, t: &str, f: Fail) -> Viola
 
 pub fn run(ctx: &RunCtx) -> Outcome {
     let mut o = Outcome::default();
-    o.rule = "templates: every string of length <= L over {$,{,},\\,g,<,>,0,1,9,x,_,é,space,-} (exhaustive) plus proptest sequences of template fragments (incl. $$, ${, \\g<, 20-digit numbers); each x 6 capture sets (numbered only / named with an unmatched group and a non-ASCII name / 12 groups so that $10, \\10 matter; each through the automata engine and through the VM) x both expanders. Oracle: independent scanner written from the doc comments; expansion, append_expansion, write_expansion, write_expansion_vec and Captures::expand agree with it; expansion(escape(t)) == t and escape borrows iff nothing to escape; check(t).is_ok() implies every reference the scanner finds names an existing group and none is malformed. Non-trivial = the template contains a reference resolving to a matched group, or a malformed reference. Distinct = distinct (template, expander, capture set).".into();
+    o.rule = "templates: every string of length <= L over {$,{,},\\,g,<,>,0,1,9,x,_,é,space,-,²} (exhaustive) plus proptest sequences of template fragments (incl. $$, ${, \\g<, 20-digit numbers); each x 8 capture sets (numbered only / named with an unmatched group and a non-ASCII name / 12 groups so that $10, \\10 matter; each through the automata engine and through the VM) x both expanders. Oracle: independent scanner written from the doc comments; expansion, append_expansion, write_expansion (into a Vec, through writers that accept 1 or 3 bytes per call, and into a slice one byte too small, which must give an Err), write_expansion_vec and Captures::expand agree with it; expansion(escape(t)) == t and escape borrows iff nothing to escape; check(t).is_ok() implies every reference the scanner finds names an existing group and none is malformed. Non-trivial = the template contains a reference resolving to a matched group, or a malformed reference. Distinct = distinct (template, expander, capture set).".into();
     o.assumptions = vec!["the template model in harness/src/model.rs follows the documentation of Captures::expand / Regex::replace / Expander::python".into()];
     o.required_classes = vec!["template:resolved-reference".into(), "template:malformed-reference".into(), "template:unresolved-reference".into()];
     let prepared = match prepare() {
